@@ -29,6 +29,7 @@ REQUIRED_THEOREMS = [
     "C08_pauli_triple", "C08_basis_rotation_sign", "C08_rotated_Z", "C08_rotated_Z_pure", "C08_rotated_Z_mixed",
     "C08_rotated_Z_mixed_rbm", "C08_rbm_rho_diag", "C08_mixed_rbm", "C08_rbm_rho_hermitian", "C08_ops_hermitian",
     "C08_mixed_rbm_trace_real", "C08_one_value_per_sample",
+    "C08_flag_absolute", "C08_flag_periodic", "C08_flag_any_form",   # round 4: constructor flags as the objects the caller passed
 ]
 THEOREMS = {
     "sigmaX": "C08_sigmaX (+ C08_represents_pure/_mixed, C08_no_mutation: run = map of the per-sample value)",
@@ -53,7 +54,10 @@ RULE = ("case = (state kind pos/cplx/dens, n<=5, h, [a], parameter scale in {0.3
         "history cases: every observable object created once and applied along a sequence (sample tensor overwritten in place, state "
         "re-parametrised in place, other batch length, longer / shorter chains, other state class, back to the start); "
         "sign anchor on every full-basis case: Born distributions of the outcomes in the all-X and all-Y bases from the library's own "
-        "rotate_psi / rotate_psi_inner_prod (wavefunctions) and rotate_rho_probs / rotate_rho (density matrices) with the default dictionary")
+        "rotate_psi / rotate_psi_inner_prod (wavefunctions) and rotate_rho_probs / rotate_rho (density matrices) with the default dictionary; "
+        "every `absolute` / `periodic_bcs` argument (constructor, keyword or positional, and reassigned attribute) is one of {bool singleton, int "
+        "1/0, numpy.bool_, result of a numpy comparison, 0-dim numpy bool array, 0-dim torch.bool tensor} drawn from a per-case seeded stream "
+        "(`fseed`); states are constructed with gpu=<falsy object of one of these forms>")
 
 I2 = np.eye(2, dtype=complex)
 PX = np.array([[0, 1], [1, 0]], dtype=complex)
@@ -83,12 +87,34 @@ def op_neighbour(n, c, periodic):
     return tot / n
 
 
-def build_state(kind, n, h, a, am, ph):
+def build_state(kind, n, h, a, am, ph, gpuf=None):
+    """`gpuf`: flag form of the (falsy) object handed as `gpu=` to the constructors (None: the singleton False)"""
+    gpu = qc.flag_value(qc.flag_desc(gpuf, False))
     if kind == "pos":
-        return qc.make_positive(n, h, am)
+        return qc.make_positive(n, h, am, gpu=gpu)
     if kind == "cplx":
-        return qc.make_complex(n, h, am, ph)
-    return qc.make_density(n, h, a, am, ph)
+        return qc.make_complex(n, h, am, ph, gpu=gpu)
+    return qc.make_density(n, h, a, am, ph, gpu=gpu)
+
+
+def _fd(d):
+    """flag descriptor as the driver takes it"""
+    return {"form": d["form"], "value": d["value"]}
+
+
+def make_pauli(cls, fl, ab):
+    """SigmaX/Y/Z with `absolute` = the truth value `ab` handed over as the next object of the flag stream (keyword or positional)"""
+    obj, d = fl(ab)
+    return (cls(obj) if d["pos"] else cls(absolute=obj)), d
+
+
+def make_neighbour(cls, fl, per, c, form=None):
+    """NeighbourInteraction with `periodic_bcs` = the truth value `per` as an object of the given / next form (keyword or positional)"""
+    obj, d = fl(per)
+    if form is not None:   # one form per truth value and case (the model takes one descriptor pair for all distances); position still varies
+        d = dict(d, form=form)
+        obj = qc.flag_value(d)
+    return (cls(obj, c) if d["pos"] else cls(periodic_bcs=obj, c=c)), d
 
 
 def state_req(kind, n, h, a, am, ph):
@@ -137,12 +163,18 @@ def cmp_vals(ctx, name, level, impl, model, case, theorem, sig):
         ctx.point(name, level, impl, m, case, scale=max(sc, 1.0), theorem=theorem, sig=sig)
 
 
-def one_case(ctx, kind, n, h, a, scale, am, ph, samples, full, layout="contig"):
+def one_case(ctx, kind, n, h, a, scale, am, ph, samples, full, layout="contig", fseed=None, gpuf=None):
+    """`fseed`: seed of the case's flag stream (qc.Flags): every `absolute` / `periodic_bcs` argument is handed over as a bool singleton / int /
+    numpy bool / result of a numpy comparison / 0-dim bool array / 0-dim bool tensor, by keyword or positionally (None: singletons by keyword,
+    cases stored before round 4); `gpuf`: form of the falsy object given as `gpu=`"""
     from qucumber.observables import NeighbourInteraction, SigmaX, SigmaY, SigmaZ
 
-    case = {"kind": kind, "n": n, "h": h, "a": a, "scale": scale, "am": am, "ph": ph, "samples": samples, "full": full, "layout": layout}
+    case = {"kind": kind, "n": n, "h": h, "a": a, "scale": scale, "am": am, "ph": ph, "samples": samples, "full": full, "layout": layout,
+            "fseed": fseed, "gpuf": gpuf}
+    ctx.current_case = case
     ctx.count(f"layout={layout}")
-    st = build_state(kind, n, h, a, am, ph)
+    fl = qc.Flags(fseed)
+    st = build_state(kind, n, h, a, am, ph, gpuf)
     B = len(samples)
     cs = list(range(0, n + 2))
     nz = lambda p: all(x != 0 for x in p["b"]) and all(x != 0 for x in p["c"])  # noqa: E731
@@ -157,15 +189,24 @@ def one_case(ctx, kind, n, h, a, scale, am, ph, samples, full, layout="contig"):
         return torch.tensor(samples, dtype=torch.double).reshape(B, n)
 
     # ---------------- implementation (the batch in the case's memory layout: contiguous / strided view / transposed)
-    impl = {}
+    impl, fdesc = {}, {}
     for nm, cls in (("sigmaX", SigmaX), ("sigmaY", SigmaY), ("sigmaZ", SigmaZ)):
         for ab in (False, True):
             t, backing = make_batch(samples, n, layout)
-            impl[(nm, ab)] = impl_apply(cls(absolute=ab), st, t, backing, layout) + (t.numpy().astype(int).tolist(),)
+            obs, fdesc[(nm, ab)] = make_pauli(cls, fl, ab)
+            impl[(nm, ab)] = impl_apply(obs, st, t, backing, layout) + (t.numpy().astype(int).tolist(),)
+    for per in (False, True):
+        fdesc[("nb", per)] = fl(per)[1]
     for c in cs:
         for per in (False, True):
             t, backing = make_batch(samples, n, layout)
-            impl[("nb", per, c)] = impl_apply(NeighbourInteraction(periodic_bcs=per, c=c), st, t, backing, layout) + (t.numpy().astype(int).tolist(),)
+            obs, _ = make_neighbour(NeighbourInteraction, fl, per, c, form=fdesc[("nb", per)]["form"])
+            impl[("nb", per, c)] = impl_apply(obs, st, t, backing, layout) + (t.numpy().astype(int).tolist(),)
+    for d in fl.used:
+        ctx.count(f"flag given as {d['form']}:{'positional' if d['pos'] else 'keyword'}")
+    flags_req = {nm: [_fd(fdesc[(nm, False)]), _fd(fdesc[(nm, True)])] for nm in ("sigmaX", "sigmaY", "sigmaZ")}
+    flags_req["periodic"] = [_fd(fdesc[("nb", False)]), _fd(fdesc[("nb", True)])]
+    given = lambda key: fdesc[(key[0], key[1])]["form"]  # noqa: E731
     # importance-sampling aux points: pairs (vp, v) = (random row / flipped row, row)
     pairs = []
     for k in range(min(B, 6)):
@@ -190,7 +231,7 @@ def one_case(ctx, kind, n, h, a, scale, am, ph, samples, full, layout="contig"):
     # ---------------- every apply returns one float64 per sample and does not touch the sample tensor
     for key, (vals, shape_ok, unchanged, _after) in impl.items():
         nm = key[0] if key[0] != "nb" else f"neighbour(periodic={key[1]},c={key[2]})"
-        sub = {**case, "observable": nm, "absolute": key[1] if key[0] != "nb" else None}
+        sub = {**case, "observable": nm, "absolute": key[1] if key[0] != "nb" else None, "flag_given_as": given(key)}
         ctx.oracle("apply leaves the sample tensor unchanged (bytes)", bool(unchanged), sub, sig=f"{kind}/{key[0]}/no-mutation",
                    theorem=THEOREMS["after"])
         if not isinstance(vals, dict):
@@ -199,17 +240,18 @@ def one_case(ctx, kind, n, h, a, scale, am, ph, samples, full, layout="contig"):
     for nm in ("sigmaX", "sigmaY", "sigmaZ"):
         v0, v1 = impl[(nm, False)][0], impl[(nm, True)][0]
         if not isinstance(v0, dict) and not isinstance(v1, dict):
-            ctx.oracle("absolute=True is |absolute=False|", bool(np.allclose(np.abs(v0), v1, rtol=1e-12, atol=0)),
-                       {**case, "observable": nm}, sig=f"{kind}/{nm}/abs", theorem=THEOREMS["abs"])
+            ctx.oracle("absolute=<true object> is |absolute=<false object>|", bool(np.allclose(np.abs(v0), v1, rtol=1e-12, atol=0)),
+                       {**case, "observable": nm, "absolute_given_as": [fdesc[(nm, False)], fdesc[(nm, True)]]},
+                       detail={"absolute_false": v0[:8], "absolute_true": v1[:8]}, sig=f"{kind}/{nm}/abs", theorem=THEOREMS["abs"])
 
     # ---------------- model
     if ctx.driver is not None:
         req = state_req(kind, n, h, a, am, ph)
-        model = ctx.driver.call("c08.eval", samples=samples, cs=cs, pairs=pairs, **req)
+        model = ctx.driver.call("c08.eval", samples=samples, cs=cs, pairs=pairs, flags=flags_req, **req)   # flags: the OBJECTS passed (sigma*RunF, neighbourApplyF)
         for nm in ("sigmaX", "sigmaY", "sigmaZ"):
             for ab, suffix in ((False, ""), (True, "_abs")):
-                cmp_vals(ctx, f"{nm}.apply(absolute={ab})", "property", impl[(nm, ab)][0], model[nm]["vals" + suffix],
-                         {**case, "observable": nm, "absolute": ab}, THEOREMS[nm], f"{kind}/{nm}/apply")
+                cmp_vals(ctx, f"{nm}.apply(absolute={ab} given as {fdesc[(nm, ab)]['form']})", "property", impl[(nm, ab)][0], model[nm]["vals" + suffix],
+                         {**case, "observable": nm, "absolute": ab, "flag_given_as": fdesc[(nm, ab)]}, THEOREMS[nm] + "; C08_flag_absolute", f"{kind}/{nm}/apply")
                 if nm != "sigmaZ":
                     ctx.point(f"{nm}: samples after apply", "property", impl[(nm, ab)][3], model[nm]["after" + suffix],
                               {**case, "observable": nm, "absolute": ab}, exact=True, theorem=THEOREMS["after"],
@@ -218,8 +260,9 @@ def one_case(ctx, kind, n, h, a, scale, am, ph, samples, full, layout="contig"):
             for per, mk in ((False, "open"), (True, "periodic")):
                 # c = 0 is outside the property's quantifier (c >= 1): auxiliary there
                 lvl = "property" if c >= 1 else "aux"
-                cmp_vals(ctx, f"NeighbourInteraction(periodic={per},c={c}).apply", lvl, impl[("nb", per, c)][0], model[mk][ci],
-                         {**case, "observable": "neighbour", "periodic": per, "c": c}, THEOREMS[mk], f"{kind}/neighbour/{mk}")
+                cmp_vals(ctx, f"NeighbourInteraction(periodic={per} given as {fdesc[('nb', per)]['form']},c={c}).apply", lvl, impl[("nb", per, c)][0], model[mk][ci],
+                         {**case, "observable": "neighbour", "periodic": per, "c": c, "flag_given_as": fdesc[("nb", per)]},
+                         THEOREMS[mk] + "; C08_flag_periodic", f"{kind}/neighbour/{mk}")
         if imp_err is None:
             sc = float(np.max(np.abs(i_numer))) + 1e-300
             mn = np.array([[unbits(z)[0], unbits(z)[1]] for z in model["numer"]]).T
@@ -324,11 +367,11 @@ def gen_cases(ctx, thorough):
                 else:
                     am = qc.rand_rbm_params(rng, n, h, scale)
                     ph = qc.rand_rbm_params(rng, n, h, scale) if kind == "cplx" else None
-                yield kind, n, h, a, scale, am, ph, qc.all_states(n), True, rng.choice(LAYOUTS)
+                yield kind, n, h, a, scale, am, ph, qc.all_states(n), True, rng.choice(LAYOUTS), rng.randrange(2 ** 31), qc.flag_form(rng, plain=0.4)
                 B = rng.randrange(1, 8)
                 base = [[rng.randrange(2) for _ in range(n)] for _ in range(max(1, B - 2))]
                 batch = [list(rng.choice(base)) for _ in range(B)]  # rows repeat
-                yield kind, n, h, a, scale, am, ph, batch, False, rng.choice(LAYOUTS)
+                yield kind, n, h, a, scale, am, ph, batch, False, rng.choice(LAYOUTS), rng.randrange(2 ** 31), qc.flag_form(rng, plain=0.4)
 
 
 # ---------------------------------------------------------------- call history on the same objects
@@ -359,7 +402,7 @@ def gen_history(rng):
     steps = [st(kind, n1, P1, S1), st(kind, n1, P1, S2), st(kind, n1, P2, S2), st(kind, n1, P2, mk(n1, B2)),
              st(k2, n2, gen_params(rng, k2, n2, h, a2, sc()), mk(n2, B)), st(k2, n3, gen_params(rng, k2, n3, h, a2, sc()), mk(n3, B)),
              st(kind, n1, P1, S1)]
-    return {"hist": True, "steps": steps}
+    return {"hist": True, "steps": steps, "fseed": rng.randrange(2 ** 31), "gpuf": qc.flag_form(rng, plain=0.4)}
 
 
 def history_case(ctx, case):
@@ -370,13 +413,22 @@ def history_case(ctx, case):
 
     steps = case["steps"]
     cmax = max(s["n"] for s in steps) + 1
-    objs = {}
+    fl = qc.Flags(case.get("fseed"))   # the objects handed as `absolute` / `periodic_bcs` (constructor arguments and reassigned attributes)
+    gpuf = case.get("gpuf")
+    ctx.current_case = case
+    objs, fdesc = {}, {}
     for nm, cls in (("sigmaX", SigmaX), ("sigmaY", SigmaY), ("sigmaZ", SigmaZ)):
         for ab in (False, True):
-            objs[(nm, ab)] = (cls(absolute=ab), lambda cls=cls, ab=ab: cls(absolute=ab))
+            obs, fdesc[(nm, ab)] = make_pauli(cls, fl, ab)
+            objs[(nm, ab)] = (obs, lambda cls=cls, ab=ab: cls(absolute=ab))
+    for per in (False, True):
+        fdesc[("nb", per)] = fl(per)[1]
     for c in range(1, cmax + 1):
         for per in (False, True):
-            objs[("nb", per, c)] = (NeighbourInteraction(periodic_bcs=per, c=c), lambda per=per, c=c: NeighbourInteraction(periodic_bcs=per, c=c))
+            obs, _ = make_neighbour(NeighbourInteraction, fl, per, c, form=fdesc[("nb", per)]["form"])
+            objs[("nb", per, c)] = (obs, lambda per=per, c=c: NeighbourInteraction(periodic_bcs=per, c=c))
+    flags_req = {nm: [_fd(fdesc[(nm, False)]), _fd(fdesc[(nm, True)])] for nm in ("sigmaX", "sigmaY", "sigmaZ")}
+    flags_req["periodic"] = [_fd(fdesc[("nb", False)]), _fd(fdesc[("nb", True)])]
     states, tensors, mut = {}, {}, {}
     ctx.case({"hist": steps}, nontrivial=True, sample={"history": [(s["kind"], s["n"], len(s["samples"])) for s in steps]})
     ctx.count("history_case")
@@ -394,7 +446,7 @@ def history_case(ctx, case):
                     qc.set_rbm(st.rbm_ph, ph, inplace=True)
             ctx.count("history:state_reused_in_place")
         else:
-            st = states[key] = build_state(kind, n, h, a, am, ph)
+            st = states[key] = build_state(kind, n, h, a, am, ph, gpuf)
         if (B, n) in tensors:
             t = tensors[(B, n)]
             t.copy_(torch.tensor(samples, dtype=torch.double).reshape(B, n))
@@ -405,7 +457,7 @@ def history_case(ctx, case):
         cs = list(range(1, cmax + 1))
         model = None
         if ctx.driver is not None:
-            model = ctx.driver.call("c08.eval", samples=samples, cs=cs, pairs=[], **state_req(kind, n, h, a, am, ph))
+            model = ctx.driver.call("c08.eval", samples=samples, cs=cs, pairs=[], flags=flags_req, **state_req(kind, n, h, a, am, ph))
         fresh_st = build_state(kind, n, h, a, am, ph)
         # observables whose PUBLIC attributes (c, periodic_bcs, absolute) are reassigned between applications: the value must
         # follow the current attributes (no state derived from earlier ones may survive)
@@ -416,17 +468,19 @@ def history_case(ctx, case):
         c_now = 1 + (i * 2 + 1) % cmax
         per_now = (i % 3 != 1)
         mut["nb"].c = c_now
-        mut["nb"].periodic_bcs = per_now
-        mut["sx"].absolute = (i % 2 == 1)
+        mut["nb"].periodic_bcs = fl(per_now)[0]       # reassigned as whatever object the flag stream yields
+        mut["sx"].absolute = fl(i % 2 == 1)[0]
         if model is not None:
             vals_m = impl_apply(mut["nb"], st, t)[0]
             mk_ = "periodic" if per_now else "open"
             cmp_vals(ctx, f"history: NeighbourInteraction with attributes reassigned to (periodic={per_now}, c={c_now})", "property", vals_m,
-                     model[mk_][cs.index(c_now)], {**sub, "observable": "neighbour(mutable)", "c": c_now, "periodic": per_now}, THEOREMS[mk_],
+                     model[mk_][cs.index(c_now)], {**sub, "observable": "neighbour(mutable)", "c": c_now, "periodic": per_now,
+                                                   "periodic_bcs_object": repr(mut["nb"].periodic_bcs)}, THEOREMS[mk_] + "; C08_flag_periodic, C08_flag_any_form",
                      f"{kind}/neighbour/{mk_}/attributes-reassigned")
             vals_x = impl_apply(mut["sx"], st, t)[0]
             cmp_vals(ctx, f"history: SigmaX with absolute reassigned to {i % 2 == 1}", "property", vals_x,
-                     model["sigmaX"]["vals" + ("_abs" if i % 2 == 1 else "")], {**sub, "observable": "sigmaX(mutable)"}, THEOREMS["sigmaX"],
+                     model["sigmaX"]["vals" + ("_abs" if i % 2 == 1 else "")], {**sub, "observable": "sigmaX(mutable)", "absolute_object": repr(mut["sx"].absolute)},
+                     THEOREMS["sigmaX"] + "; C08_flag_absolute, C08_flag_any_form",
                      f"{kind}/sigmaX/attributes-reassigned")
         for key2, pair_ in objs.items():
             if key2 == "mut":
@@ -473,7 +527,7 @@ def search(ctx):
 
 def replay(ctx, case):
     if case.get("hist"):
-        history_case(ctx, {"hist": True, "steps": case["steps"]})
+        history_case(ctx, {"hist": True, "steps": case["steps"], "fseed": case.get("fseed"), "gpuf": case.get("gpuf")})
         return
     one_case(ctx, case["kind"], case["n"], case["h"], case["a"], case["scale"], case["am"], case["ph"], case["samples"], case["full"],
-             case.get("layout", "contig"))
+             case.get("layout", "contig"), case.get("fseed"), case.get("gpuf"))
